@@ -17,9 +17,17 @@ def judge(s, area, name, inplace=True):
     if isinstance(base[0], str):
         return 1, None  # exceptions are C01/C05 business; nothing to compare
     r = s
+    vshape = O.area_shape(area)
     for k in (1, 2, 3):
         r = R.rotate_world_cw(r)
-        o = O.observe(name, area, mkstate(r))
+        st_r = mkstate(r)
+        o = O.observe(name, area, st_r)
+        if (inplace or R.shape(r[0]) in (vshape, vshape[::-1])) and o == base:
+            # (views that cover exactly the world are a boundary case of the slicing: look twice)
+            o = O.observe(name, area, st_r)
+            if o != base:
+                return k + 1, (f'{name} area {area}: the world rotated by {k} quarter turn(s) is shown like the original at the first '
+                               f'look and differently at a second look at the same state object')
         if o != base:
             if isinstance(o[0], str):
                 return k + 1, f'{name} area {area}: raises {o[1]} after rotating the world by {k} quarter turns'
@@ -42,9 +50,27 @@ def judge(s, area, name, inplace=True):
             return 5, (f'{name} area {area}: after turning the same state object in place to heading {h2} its observation differs '
                        f'from that of a freshly built equal state')
     H, W = R.shape(s[0])
+    # an object of the observed state changes its opacity in place (a door is written into a cell, then opened, locked,
+    # closed through its own attribute - what actuate_door does): the state object is observed like its freshly built
+    # rotations, i.e. like a freshly built equal state
+    from gym_gridverse.grid_object import Door as _Door
+    from ..desc import mk as _mk, sdesc as _sdesc
+    st.agent.orientation = _ORI[s[3]]
+    tgt = R.world_cell(s[1], s[2], s[3], -1, 0)
+    if not R.inside(s[0], tgt):
+        tgt = next(((y, x) for y in range(H) for x in range(W) if (y, x) != (s[1], s[2])), None)
+    if tgt is not None:
+        st.grid[_P(*tgt)] = _mk(U.door(1, 3))
+        for status in (None, _Door.Status.OPEN, _Door.Status.LOCKED, _Door.Status.CLOSED, _Door.Status.OPEN):
+            if status is not None:
+                st.grid[_P(*tgt)].state = status
+            if O.observe(name, area, st) != O.observe(name, area, mkstate(_sdesc(st))):
+                return 6, (f'{name} area {area}: after a door at {tgt} of the same state object was '
+                           f'{"written into the grid" if status is None else "set to " + status.name + " in place"}, the observation '
+                           f'differs from that of a freshly built equal state (and of its rotations)')
     st.agent.position = _P((s[1] + 1) % H, (s[2] + 1) % W)
-    s3 = (s[0], (s[1] + 1) % H, (s[2] + 1) % W, 'F', s[4])
-    if O.observe(name, area, st) != O.observe(name, area, mkstate(s3)):
+    st.agent.orientation = _ORI['F']
+    if O.observe(name, area, st) != O.observe(name, area, mkstate(_sdesc(st))):
         return 6, f'{name} area {area}: after moving the same state object in place its observation differs from a fresh equal state'
     return 6, None
 
